@@ -131,6 +131,9 @@ def build(ex, spec):
         nodes.entries.append((ni, Cell(Agg('Node', 1, [tup(ni, st)]))))
         info[i] = dict(kind='Service', n=i, idx=ni, vt=vt, o=o, d=d, st=dep, et=dep + du, dur=du, dist=dm, pax=px, seated=se, limit=linfo, id='trip%d' % i, sloc=o, eloc=d)
         net.trips.append(i); service_by_type[vt].append(i)
+    if getattr(spec, 'ordered_trips', False):
+        # symmetry reduction (stated bound): service trips are numbered in order of departure (ties allowed)
+        for a, b in zip(net.trips, net.trips[1:]): ex.pc_global.append(info[a]['st'] <= info[b]['st'])
     # ---- maintenance slots
     net.maint = []
     for k in range(spec.maint):
@@ -172,6 +175,13 @@ def build(ex, spec):
     vals.update(nodes=nodes, depots=depots, overflow_depot_idxs=overflow_idxs, config=arc(config), locations=arc(locations),
                 vehicle_types=arc(vehicle_types), planning_days=dur(net.planning_days), number_of_service_nodes=bv(len(spec.trips), 'usize'))
     net.info = info; net.nodes_map = nodes; net.ndep = ndep
+    if spec.level == 'listed':
+        # listings in id order, NOT sorted by time: only for code that does not rely on the iteration order of these listings
+        # (Network::all_service_nodes / coverable_nodes are modelled accordingly by schedops.LISTED_MODELS); the time-sorted maps stay opaque
+        sdeps = [d['start'] for d in net.depots]; edeps = [d['end'] for d in net.depots]
+        vals['service_nodes'] = MapVal([(vtidx(t), Cell(VecVal([Cell(info[i]['idx']) for i in service_by_type[t]]))) for t in range(ntypes)], name='service_nodes')
+        vals['maintenance_nodes'] = VecVal([Cell(info[i]['idx']) for i in net.maint])
+        vals['start_depot_nodes'] = VecVal([Cell(info[i]['idx']) for i in sdeps]); vals['end_depot_nodes'] = VecVal([Cell(info[i]['idx']) for i in edeps])
     if spec.level == 'full':
         cmp_start = ex.resolve_fn('Node::cmp_start_time')
         cell_of = {conc(k.fields[0]): c for k, c in nodes.entries}
